@@ -3,6 +3,7 @@ import Ccp.Proofs.IPSpell
 import Ccp.Proofs.IPRender
 import Ccp.Spec.IP
 import Ccp.Proofs.IPTextX
+import Ccp.Proofs.IPCheck
 /-!
 # C11 — IPv4/IPv6 objects agree with the standard library on every derived value
 
@@ -697,33 +698,131 @@ theorem ip_factory_dispatch (val : Val) (stdlib : Bool) (mode : Py.Str) :
     simp only [ipFactory, h1, h2, if_false, if_true, getIpv6_eq, wrapAVE_idem]
   · simp only [ipFactory, h1, h2, h3, if_false]
 
-open Ccp.IPTextX in
-/-- **`check_valid_ipaddress` as it is** (known finding FC11a): it answers `(stripped text, 4)` exactly when
-`IPv4Obj` accepts the stripped text and raises `ValueError` otherwise — it never answers family 6: the IPv6
-attempt in its source is dead code, so every valid IPv6 address is rejected. -/
-theorem check_valid_spec (s : Py.Str) :
-    (∀ t fam, checkValid s = .ok (t, fam) ↔ t = Py.strip s ∧ fam = 4 ∧ ∃ o, V4.fromStr (Py.strip s) = .ok o) ∧
-    (∀ e, checkValid s = .error e → e = .valueError) ∧
-    (∀ t, checkValid s ≠ .ok (t, 6)) := by
-  unfold checkValid
-  cases h : V4.fromStr (Py.strip s) with
-  | error e =>
-    refine ⟨fun t fam => ?_, fun e' he => ?_, fun t he => ?_⟩
-    · simp
-    · cases he; rfl
-    · cases he
-  | ok o =>
-    refine ⟨fun t fam => ?_, fun e' he => ?_, fun t he => ?_⟩
-    · simp only [Except.ok.injEq, Prod.mk.injEq, exists_eq', and_true]
-      constructor
-      · rintro ⟨rfl, rfl⟩; exact ⟨rfl, rfl⟩
-      · rintro ⟨rfl, rfl⟩; exact ⟨rfl, rfl⟩
-    · cases he
-    · cases he
+/-- **`IPv4Obj` never accepts a text that holds a colon** (corollary of `v4_rejects`: the accepted texts are dotted
+quads, digits, a slash and white space), so no text is accepted by both constructors as long as an IPv6 text holds
+a colon -- which every RFC 4291 spelling does (`IPCheck.colon_mem_spelling`). -/
+theorem v4_text_has_no_colon (input : Str) (o : Obj) (h : V4.fromStr input = .ok o) : ':' ∉ input := by
+  intro hc
+  obtain ⟨ip, len, f, _, _, hf, hs, _⟩ := v4_rejects input o h
+  have hm : ':' ∈ V4Form.render ip len f := by
+    rw [← hs]; exact IPCheck.mem_strip_of_nonspace ':' input hc (by decide)
+  have hd : ∀ n, ':' ∉ IP.dotted n := by
+    intro n hn
+    rw [← dotted_eq] at hn
+    exact strV4_ne n ':' (by decide) (by decide) ':' hn rfl
+  cases f with
+  | plain => exact hd _ hm
+  | pfx d =>
+    simp only [V4Form.render, List.mem_append, List.mem_cons] at hm
+    rcases hm with hm | hm | hm
+    · exact hd _ hm
+    · cases hm
+    · have := hf.2.1 ':' hm; revert this; decide
+  | slashMask host =>
+    simp only [V4Form.render, List.mem_append, List.mem_cons] at hm
+    rcases hm with hm | hm | hm
+    · exact hd _ hm
+    · cases hm
+    · exact hd _ hm
+  | spaceMask host ws =>
+    simp only [V4Form.render, List.mem_append] at hm
+    rcases hm with (hm | hm) | hm
+    · exact hd _ hm
+    · have := hf.2.2 ':' hm; revert this; decide
+    · exact hd _ hm
 
 open Ccp.IPTextX in
+/-- **`check_valid_ipaddress`** (full statement; the docstring's promise "(input_addr, ipaddr_family) if the address is
+valid, an error if not").  It answers `(stripped text, 4)` exactly when `IPv4Obj` accepts the stripped text,
+`(stripped text, 6)` exactly when `IPv4Obj` refuses it and `IPv6Obj` accepts it, and raises `ValueError` -- nothing else
+-- exactly when both refuse it; no other answer exists.
+(Before the repair `fix: check_valid_ipaddress() tries IPv6 when the text is not an IPv4 address` this theorem stated
+the code as it was -- finding FC11a: family 4 iff `IPv4Obj` accepts, `ValueError` otherwise, never family 6, so every
+valid IPv6 address was rejected.) -/
+theorem check_valid_spec (s : Py.Str) :
+    (∀ t fam, checkValid s = .ok (t, fam) ↔ t = Py.strip s ∧
+      ((fam = 4 ∧ ∃ o, V4.fromStr (Py.strip s) = .ok o) ∨
+       (fam = 6 ∧ (∀ o, V4.fromStr (Py.strip s) ≠ .ok o) ∧ ∃ o, V6.fromStr (Py.strip s) = .ok o))) ∧
+    (∀ e, checkValid s = .error e → e = .valueError) ∧
+    (checkValid s = .error .valueError ↔
+      (∀ o, V4.fromStr (Py.strip s) ≠ .ok o) ∧ ∀ o, V6.fromStr (Py.strip s) ≠ .ok o) := by
+  unfold checkValid
+  cases h4 : V4.fromStr (Py.strip s) with
+  | ok o =>
+    refine ⟨fun t fam => ?_, fun e' he => (by cases he), ?_⟩
+    · simp only [Except.ok.injEq, Prod.mk.injEq]
+      constructor
+      · rintro ⟨rfl, rfl⟩; exact ⟨rfl, .inl ⟨rfl, o, rfl⟩⟩
+      · rintro ⟨rfl, ⟨rfl, _⟩ | ⟨_, hno, _⟩⟩
+        · exact ⟨rfl, rfl⟩
+        · exact absurd rfl (hno o)
+    · constructor
+      · intro he; cases he
+      · rintro ⟨hno, _⟩; exact absurd rfl (hno o)
+  | error e4 =>
+    cases h6 : V6.fromStr (Py.strip s) with
+    | ok o =>
+      refine ⟨fun t fam => ?_, fun e' he => (by cases he), ?_⟩
+      · simp only [Except.ok.injEq, Prod.mk.injEq]
+        constructor
+        · rintro ⟨rfl, rfl⟩
+          exact ⟨rfl, .inr ⟨rfl, (fun o' ho' => by cases ho'), o, rfl⟩⟩
+        · rintro ⟨rfl, ⟨_, o', ho'⟩ | ⟨rfl, _⟩⟩
+          · cases ho'
+          · exact ⟨rfl, rfl⟩
+      · constructor
+        · intro he; cases he
+        · rintro ⟨_, hno⟩; exact absurd rfl (hno o)
+    | error e6 =>
+      refine ⟨fun t fam => ?_, fun e' he => (by cases he; rfl), ?_⟩
+      · constructor
+        · intro he; cases he
+        · rintro ⟨_, ⟨_, o', ho'⟩ | ⟨_, _, o', ho'⟩⟩ <;> cases ho'
+      · exact ⟨fun _ => ⟨(fun o ho => by cases ho), (fun o ho => by cases ho)⟩, fun _ => rfl⟩
+
+open Ccp.IPTextX in
+/-- **The family reported is the family of the text**: a text that `IPv4Obj` accepts is family 4; a text that holds a
+colon -- every spelling of an IPv6 address does -- and that `IPv6Obj` accepts is family 6 (`IPv4Obj` cannot accept
+it, `v4_text_has_no_colon`); in particular every RFC 4291 spelling `addr` of an address, alone or as `addr/len`
+(under the constructor's 49-character guard), surrounded by any blanks, is answered `(stripped text, 6)`. -/
+theorem check_valid_families (s : Py.Str) :
+    ((∃ o, V4.fromStr (Py.strip s) = .ok o) → checkValid s = .ok (Py.strip s, 4)) ∧
+    (':' ∈ Py.strip s → (∃ o, V6.fromStr (Py.strip s) = .ok o) → checkValid s = .ok (Py.strip s, 6)) ∧
+    (∀ addr ip, IP.IsV6Spelling addr ip → addr.length ≤ 49 → Py.strip s = addr →
+      checkValid s = .ok (addr, 6)) ∧
+    (∀ addr ip len digits, IP.IsV6Spelling addr ip → len ≤ 128 → digits ≠ [] → (∀ c ∈ digits, Py.isDigit c = true) →
+      ofDigits digits = some len → (addr ++ '/' :: digits).length ≤ 49 → Py.strip s = addr ++ '/' :: digits →
+      checkValid s = .ok (addr ++ '/' :: digits, 6)) := by
+  have key : ':' ∈ Py.strip s → (∃ o, V6.fromStr (Py.strip s) = .ok o) → checkValid s = .ok (Py.strip s, 6) := by
+    intro hc ⟨o, ho⟩
+    refine ((check_valid_spec s).1 _ _).mpr ⟨rfl, .inr ⟨rfl, fun o4 h4 => ?_, o, ho⟩⟩
+    exact v4_text_has_no_colon _ o4 h4 hc
+  refine ⟨fun h => ((check_valid_spec s).1 _ _).mpr ⟨rfl, .inl ⟨rfl, h⟩⟩, key, ?_, ?_⟩
+  · intro addr ip hsp hg hs
+    have hacc := v6_text_forms_plain ip addr hsp hg (Py.strip s) (by rw [IPCheck.strip_strip, hs])
+    have := key (by rw [hs]; exact IPCheck.colon_mem_spelling addr ip hsp) ⟨_, hacc⟩
+    rw [hs] at this; exact this
+  · intro addr ip len digits hsp hlen hne hd hv hg hs
+    have hacc := v6_text_forms ip len addr hsp hlen digits hne hd hv hg (Py.strip s)
+      (.inl (by rw [IPCheck.strip_strip, hs]))
+    have hc : ':' ∈ Py.strip s := by
+      rw [hs]; exact List.mem_append_left _ (IPCheck.colon_mem_spelling addr ip hsp)
+    have := key hc ⟨_, hacc⟩
+    rw [hs] at this; exact this
+
+open Ccp.IPTextX in
+/-- both families, blanks stripped, and texts that neither constructor accepts (`::1` and `fe80::1/64` were rejected with
+`ValueError` before the repair of FC11a) -/
 example : checkValid " 10.1.2.3/24 ".toList = .ok ("10.1.2.3/24".toList, 4) ∧
-    checkValid "::1".toList = .error .valueError := by decide +kernel
+    checkValid "::1".toList = .ok ("::1".toList, 6) ∧
+    checkValid "  fe80::1/64 ".toList = .ok ("fe80::1/64".toList, 6) ∧
+    checkValid "::ffff:1.2.3.4".toList = .ok ("::ffff:1.2.3.4".toList, 6) ∧
+    checkValid "1::2::3".toList = .error .valueError ∧
+    checkValid "1.2.3.256".toList = .error .valueError := by decide +kernel
+/-- hypotheses of `check_valid_families` (a spelling, its length guard) and of `v4_text_has_no_colon` -/
+example : IP.IsV6Spelling "fe80::1".toList 0xfe800000000000000000000000000001 ∧ "fe80::1".toList.length ≤ 49 :=
+  ⟨stdV6Int_sound _ _ (by decide +kernel), by decide⟩
+example : (V4.fromStr "10.1.2.3/24".toList).toOption.isSome = true := by decide +kernel
 
 open Ccp.IPTextX in
 /-- **argument guards**: `_get_ipv4` / `_get_ipv6` pass exactly when `val` is `str|int`, `strict` and `stdlib`
